@@ -430,6 +430,10 @@ func joinToks(r *core.Rng, ts []string) string {
 	return b.String()
 }
 
+// characters a careless whitespace table would skip (form feed, vertical tab, NUL, other controls,
+// Unicode spaces) next to the four that really are XPath / path-arg whitespace
+var c04SpaceLike = []string{"\f", "\v", "\x00", "\x1f", "\x7f", "\u00a0", "\u0085", "\u1680", "\u2028", "\u3000", "\u200b", "\ufeff", " ", "\t", "\r", "\n", " \t\r\n "}
+
 var c04Hostile = []string{
 	"", " ", "()", "( )", "(())", "1e5", "1E5", "1.5e3", ".5e1", "1e", "1e+5", "1.2.3", "1..2", "1.", ".", "..", "...", "....",
 	"'abc", "\"abc", "'a\"", "a'b'", "a[", "a]", "a[]", "a[[1]]", "a[1]]", "a/", "/", "//", "/a//b", "a//b", "//a", "@a", "a/@b",
@@ -587,7 +591,12 @@ func (p *c04) Run(tier string, seed int64, idx int) core.CaseResult {
 				sw[i], sw[i+1] = sw[i+1], sw[i]
 				check(joinToks(r, sw), &res)
 			}
+			// a character that looks like a blank, in front of token i: only space, tab, CR and LF separate tokens
+			sp := c04SpaceLike[(i+idx)%len(c04SpaceLike)]
+			check(joinToks(r, ts[:i])+sp+joinToks(r, ts[i:]), &res)
+			res.Ev("space_like_characters_between_tokens", 1)
 		}
+		check(base+core.Pick(r, c04SpaceLike), &res)
 		if idx%499 == 0 {
 			res.Sample = map[string]interface{}{"stream": "sentence + single-token edits", "sentence": base}
 		}
@@ -612,7 +621,7 @@ func (p *c04) Run(tier string, seed int64, idx int) core.CaseResult {
 		check(base[:i]+"\xff"+base[i:], &res)
 		if i < len(base) {
 			check(base[:i]+base[i+1:], &res)
-			check(base[:i]+string(core.Pick(r, []byte("$#!{}\\'\"()[]/.:*@,|=<>+- \t")))+base[i:], &res)
+			check(base[:i]+string(core.Pick(r, []byte("$#!{}\\'\"()[]/.:*@,|=<>+- \t\f\v\x00\x7f\r\n")))+base[i:], &res)
 		}
 	}
 	if idx%499 == 0 {
